@@ -218,6 +218,7 @@ class MockState:
         blockquote_lines = lines
         attribution_lines = []
         attribution_line_offset = None
+        remaining_offset = len(lines)
         # First line after a blank line must begin with a dash
         for i, line in enumerate(lines):
             if not line.strip():
@@ -233,11 +234,15 @@ class MockState:
             attribution_line_offset = i
             attribution_lines = [match.group(2)]
             for at_line in lines[i + 1 :]:
+                if not at_line.strip():
+                    # a blank line ends the attribution
+                    break
                 indented_line = at_line[len(match.group(1)) :]
                 if len(indented_line) != len(at_line.lstrip()):
                     break
                 attribution_lines.append(indented_line)
             blockquote_lines = lines[:i]
+            remaining_offset = i + len(attribution_lines)
             break
         # parse block
         blockquote = nodes.block_quote()
@@ -255,6 +260,13 @@ class MockState:
             ) = self.state_machine.get_source_and_line(lineno + 1)
             blockquote += attribution
             elements += messages
+        # what follows the attribution starts a new block quote (as in docutils)
+        while remaining_offset < len(lines) and not lines[remaining_offset].strip():
+            remaining_offset += 1
+        if remaining_offset < len(lines):
+            elements += self.block_quote(
+                lines[remaining_offset:], line_offset + remaining_offset
+            )
         return elements
 
     def build_table(self, tabledata, tableline, stub_columns: int = 0, widths=None):
